@@ -60,15 +60,16 @@ class YYToken(_YYToken):
             parts.append(str(self.lnk))
         parts.append(' '.join(map(str, self.paths or [1])))
         if self.surface is None:
-            parts.append(f'"{self.form}"')
+            parts.append(f'"{_escape(self.form)}"')
         else:
-            parts.append(f'"{self.form}" "{self.surface}"')
+            parts.append(
+                f'"{_escape(self.form)}" "{_escape(self.surface)}"')
         parts.extend([
             str(self.ipos),
-            ' '.join(map('"{}"'.format, self.lrules))
+            ' '.join(f'"{_escape(lrule)}"' for lrule in self.lrules)
         ])
         if self.pos:
-            ps = [f'"{pos}" {p:.4f}' for pos, p in self.pos]
+            ps = [f'"{_escape(pos)}" {p:.4f}' for pos, p in self.pos]
             parts.append(' '.join(ps))
         return '({})'.format(', '.join(parts))
 
@@ -115,6 +116,16 @@ class YYToken(_YYToken):
         return d
 
 
+def _escape(s):
+    """Escape backslashes and double quotes for a YY string."""
+    return s.replace('\\', '\\\\').replace('"', '\\"')
+
+
+def _unescape(s):
+    """Invert :func:`_escape`."""
+    return re.sub(r'\\(["\\])', r'\1', s)
+
+
 # from: https://github.com/delph-in/docs/wiki/PetInput
 # (id, start, end, [link,] path+, form [surface], ipos, lrule+[, {pos p}+])
 _yy_re = re.compile(
@@ -156,7 +167,8 @@ class YYTokenLattice:
         Decode from the YY token lattice format.
         """
         def _qstrip(s):
-            return s[1:-1]  # remove assumed quote characters
+            # remove assumed quote characters and unescape the rest
+            return _unescape(s[1:-1])
         tokens = []
         for match in _yy_re.finditer(s):
             d = match.groupdict()
